@@ -41,7 +41,8 @@ ASSUMPTIONS = [
 MODES = ["raw-int", "raw-ndarray", "raw-bool", "raw-str", "raw-tuple2",
          "raw-tuple_intarr", "raw-intarr2d", "raw-tuple_strarr",
          "raw-tuple_empty",
-         "ds-2vars", "ds-internal", "ds-xobj", "df", "sampler-df"]
+         "ds-2vars", "ds-internal", "ds-xobj", "df", "sampler-df",
+         "ds-strvar"]
 
 
 PARENTS = ["xyz-result-3.jbdmp", "batches", "xyz-batch-2.jbdmp.d"]
@@ -164,6 +165,10 @@ def _run_case(case):
             if mode == "ds-2vars":
                 lspec = {"vars": [["out", []], ["E", []]], "sizes": {},
                          "ret": "tuple"}
+            elif mode == "ds-strvar":
+                # a text-valued scalar next to a number, returned as a tuple
+                lspec = {"vars": [["out", []], ["E", []]], "sizes": {},
+                         "ret": "tuple", "str_var": 1}
             elif mode == "ds-internal":
                 lspec = {"vars": [["out", ["t"]], ["E", []]],
                          "sizes": {"t": 2}, "ret": "tuple"}
